@@ -153,6 +153,58 @@ Example C18_nonvacuous :
   forallb is_hex (PS "diana") = false.
 Proof. vm_compute. repeat split; reflexivity. Qed.
 
+(* THE SALT SOURCE OVER THE LIFE OF A DEPLOYMENT (PublicID / PairWiseID with `salt` or with `filename`: Model/Sub.v salt_of is
+   PairWiseID.__init__ with its READ and CREATE branches, start_up the construction of the configured entries in dict order; the
+   driver builds two or three provider instances one after another from the same configuration - salt given, salt file existing
+   with all sorts of content, salt file missing at first start, one file shared by two entries - and compares files and subs of
+   every instance with the model and the subs across the instances with each other). *)
+Theorem C18_salt_file_round_trip : forall s, ~ In 13%N s -> read_text (write_text s) = s.
+Proof. exact salt_file_round_trip. Qed.
+Print Assumptions C18_salt_file_round_trip.
+
+Theorem C18_salt_file_create_then_read : forall f fs rnd rnd',
+  assoc f fs = None -> ~ In 13%N rnd ->
+  exists fs1, salt_of (SrcFile f) fs rnd = InitOk rnd fs1 /\ salt_of (SrcFile f) fs1 rnd' = InitOk rnd fs1.
+Proof. exact create_then_read. Qed.
+Print Assumptions C18_salt_file_create_then_read.
+
+Theorem C18_existing_salt_file_read_alike : forall f raw fs fs2 rnd rnd',
+  assoc f fs = Some (FFile raw) -> fs_le fs fs2 ->
+  salt_of (SrcFile f) fs rnd = InitOk (read_text raw) fs /\ salt_of (SrcFile f) fs2 rnd' = InitOk (read_text raw) fs2.
+Proof. exact existing_file_same_salt. Qed.
+Print Assumptions C18_existing_salt_file_read_alike.
+
+Theorem C18_same_configuration_same_minters_on_every_instance : forall d rnd fs conf fs',
+  persistent d = true -> (forall n, ~ In 13%N (rnd n)) ->
+  start_up d 0 rnd fs = Some (conf, fs') ->
+  forall fs2 rnd', fs_le fs' fs2 -> start_up d 0 rnd' fs2 = Some (conf, fs2).
+Proof. exact restart_same_configuration. Qed.
+Print Assumptions C18_same_configuration_same_minters_on_every_instance.
+
+Theorem C18_same_configuration_same_subs_on_every_instance : forall (H : pystr -> pystr) (host_of : pystr -> pystr) d rnd fs conf fs',
+  persistent d = true -> (forall n, ~ In 13%N (rnd n)) ->
+  start_up d 0 rnd fs = Some (conf, fs') ->
+  forall fs2 rnd', fs_le fs' fs2 ->
+  exists conf2, start_up d 0 rnd' fs2 = Some (conf2, fs2) /\
+    forall r rd uid salt n, grant_sub_conf H host_of conf2 r rd uid salt n = grant_sub_conf H host_of conf r rd uid salt n.
+Proof. exact restart_same_subs. Qed.
+Print Assumptions C18_same_configuration_same_subs_on_every_instance.
+
+(* non-vacuity of the life cycle: two entries sharing one missing file (the first creates it, the second reads it in the same
+   start-up), a second start with another draw, a hand-made file ending in CRLF, something that is not a file; and what the
+   round trip excludes: a salt stored with one character more is another salt *)
+Example C18_lifecycle_nonvacuous :
+  let d := [(PS "public", DClass false [] (PS "p.salt")); (PS "pairwise", DClass true [] (PS "p.salt")); (PS "ephemeral", DPlain ESkipped)] in
+  let c := [(PS "public", EMinter (cls_PublicID (PS "draw-1"))); (PS "pairwise", EMinter (cls_PairWiseID (PS "draw-1"))); (PS "ephemeral", ESkipped)] in
+  let fs1 := [(PS "p.salt", FFile (PS "draw-1"))] in
+  persistent d = true /\
+  start_up d 0 (fun _ => PS "draw-1") [] = Some (c, fs1) /\ start_up d 0 (fun _ => PS "draw-2") fs1 = Some (c, fs1) /\
+  salt_of (SrcFile (PS "q")) [(PS "q", FFile (PS "abc" ++ [13; 10]%N))] (PS "x") = InitOk (PS "abc" ++ [10]%N) [(PS "q", FFile (PS "abc" ++ [13; 10]%N))] /\
+  salt_of (SrcFile (PS "q")) [(PS "q", FOther)] (PS "x") = InitConfigurationError /\
+  source_of (PS "given") (PS "q") = SrcExplicit (PS "given") /\
+  read_text (PS "draw-1" ++ [10]%N) <> PS "draw-1".
+Proof. vm_compute. repeat split; try reflexivity. discriminate. Qed.
+
 (* TIE BY TRANSLATION: public_id / pairwise_id as they read in /repo/src NOW (coq/Gen/Src_sub.v) hash exactly the
    strings the model hashes (uid ++ salt, uid ++ sector ++ salt), with SHA-256. *)
 Theorem C18_sub_functions_are_source : forall H uid salt sector clock,
